@@ -145,6 +145,10 @@ class mem_resources:
         store = self.store
 
         def openResource(loader, url):
+            # like the http / file openers, the store ignores a fragment when it opens a URL
+            h = url.find('#')
+            if h >= 0:
+                url = url[:h]
             if isinstance(url, SymStr):
                 # engine only: a (partly) symbolic URL produced by the instrumented urljoin
                 for k in store:
